@@ -10,6 +10,10 @@ import random
 from . import fleet, srecipe
 
 MAX_HANDLES = 10
+# (the same tuple as fleet_ops.READ_ONLY_USES; kept here so that planning a
+# history does not import pytato)
+READ_ONLY_USES = ("dot", "num_nodes", "inputs", "dedup", "copy_mapper",
+                  "python_target", "dependencies", "repr", "materialize")
 
 
 # {{{ plan generation (pure: no worker involved)
@@ -75,9 +79,12 @@ def gen_history(rng: random.Random, nworkers: int, configs, hist_id: str):
         elif k < 0.49:
             ops.append({"op": "sub", "w": w, "src": rng.choice(hs),
                         "hid": new_h(w), "index": rng.randrange(1000)})
-        elif k < 0.57:
+        elif k < 0.55:
             ops.append({"op": "hash", "w": w, "hid": rng.choice(hs),
                         "deep": rng.random() < 0.5})
+        elif k < 0.575:
+            ops.append({"op": "use", "w": w, "hid": rng.choice(hs),
+                        "which": rng.choice(READ_ONLY_USES)})
         elif k < 0.59:
             ops.append({"op": "loopy_codegen", "w": w, "hid": rng.choice(hs)})
         elif k < 0.64:
@@ -243,6 +250,11 @@ def run_history(fl: Fleet, hist, with_keys=True, stats=None, key_table=None):
                     viol.append({"class": "hashing-added-picklable-state",
                                  "op_index": idx,
                                  "detail": f"{before} -> {after} bytes"})
+            elif kind == "use":
+                if op["hid"] not in live[w]:
+                    continue
+                r = wk.call("use", hid=op["hid"], which=op["which"])
+                bump(f"use_{op['which']}_{r.split(':')[0]}")
             elif kind == "loopy_codegen":
                 if op["hid"] not in live[w]:
                     continue
